@@ -7,6 +7,7 @@ import (
 	"fmt"
 	"math"
 	"math/big"
+	"sort"
 	"strconv"
 	"strings"
 	"unicode"
@@ -228,7 +229,12 @@ func tables(vs []any, texts []string) (tbl, ftab, pftab []byte) {
 	for _, t := range texts {
 		addRunes(t)
 	}
+	var rs []rune
 	for r := range runes {
+		rs = append(rs, r)
+	}
+	sort.Slice(rs, func(i, j int) bool { return rs[i] < rs[j] })
+	for _, r := range rs {
 		e := []byte{byte(r >> 24), byte(r >> 16), byte(r >> 8), byte(r), 0}
 		if unicode.IsPrint(r) {
 			e[4] = 1
